@@ -201,7 +201,8 @@ func (s *sender) recvAck(ackNo uint32) (uint32, error) {
 		windowOpen = true
 	}
 
-	for s.ackNo < newAckNo {
+	// A peer may acknowledge more than was ever sent; only frames that exist can be acknowledged.
+	for s.ackNo < newAckNo && len(s.frames) > 0 {
 		s.onSuccess(ackNo)
 		s.ackNo++
 		s.frames = s.frames[1:]
